@@ -1,6 +1,6 @@
 """C03 -- integrate returns exactly the marginal / partition function (structural clauses)."""
 from ..core import Ctx, Ob, PropSpec
-from ..rules import r2, r8, extra, r7i
+from ..rules import r2, r8, extra, r7i, r4r
 
 
 def run(ctx: Ctx) -> list[Ob]:
@@ -15,6 +15,7 @@ def run(ctx: Ctx) -> list[Ob]:
     obs += extra.integrate_structure(ctx)
     obs += extra.constant_value_layer(ctx)
     obs += r7i.rewiring_order(ctx, ['integrate'])
+    obs += r4r.operator_rule_shapes(ctx, {'INTEGRATION'})
     return obs
 
 
@@ -28,9 +29,9 @@ SPEC = PropSpec(
         "functional.integrate replaces exactly the input layers whose scope meets the integration scope, copies every other layer "
         "by reference with inputs re-wired in order, forwards scope= to the rule and records it in the metadata; the four "
         "precondition guards fire under every valuation (R8 truth table on the CFG); TorchConstantValueLayer maps from the semiring "
-        "selected by log_space. R7i: every comprehension over <circuit>.layer_inputs(<layer>) that re-wires a copied layer in this operator is an order-preserving total map (no `if` filter, not concatenated, not sorted / reversed / made a set): product layers and sum weights are positional."
+        "selected by log_space. R7i: every comprehension over <circuit>.layer_inputs(<layer>) that re-wires a copied layer in this operator is an order-preserving total map (no `if` filter, not concatenated, not sorted / reversed / made a set): product layers and sum weights are positional. R4r (symbolic shape interpretation of the operator rules, nothing executed): each integration layer rule, applied to abstract operand layers built by interpreting the symbolic layer constructors on symbolic sizes (every parameterisation: probs / logits, optional log-partition, arity 1..3), composes parameter nodes only with operands of the shapes the nodes were built for, hands the resulting layer parameters of exactly the shape its constructor validates (for all sizes, not only when two sizes coincide) and returns a layer with Ko output units."
     ),
     not_decided="the closed forms themselves (numerical), continuous integration, commutation of nested integration.",
     run=run,
-    floors={"R7i": 1, "R2e": 6, "R2a": 6, "R8": 4},
+    floors={"R4r": 6, "R7i": 1, "R2e": 6, "R2a": 6, "R8": 4},
 )
